@@ -20,7 +20,7 @@ from ref import pathspec, shapespec
 
 PROPERTY = "C15"
 LEVEL = "exploration"
-RULE = ("curve alphabet (lines, 10 quadratics, 14 cubics, 26 arcs incl. every degenerate class) x 3 magnitudes x error "
+RULE = ("curve alphabet (lines, 10 quadratics, 17 cubics, 26 arcs incl. every degenerate class) x 3 magnitudes x error "
         "settings, each measured directly and under 7 isometries (two of them the reflections with a = d = 0), 3 uniform scales and reversal; 12 path templates and 7 "
         "shapes x errors; point(t) on a 33-point grid + break points +-1e-9.  Non-trivial: the curve has non-zero "
         "length; distinct = distinct (curve, magnitude, error, variant).")
@@ -61,6 +61,11 @@ CURVES = {
     "cubic-c2e": ("C", [P(0, 0), P(3, 4), P(8, 1), P(8, 1)]),
     "cubic-line": ("C", [P(0, 0), P(1, 1), P(2, 2), P(3, 3)]),
     "cubic-col-fold": ("C", [P(0, 0), P(6, 6), P(-2, -2), P(3, 3)]),
+    # collinear with a handle pointing AWAY from the other end and no handle longer than the chord (the fold tips lie
+    # outside the chord although every handle looks "short"); folds at t = 1/4 resp. 3/4 exactly
+    "cubic-col-back": ("C", [P(0, 0), P(-5, 0), P(1, 0), P(10, 0)]),
+    "cubic-col-back2": ("C", [P(10, 0), P(1, 0), P(-5, 0), P(0, 0)]),
+    "cubic-col-back3": ("C", [P(6, 8), P(5.4, 7.2), P(9, 12), P(0, 0)]),     # the same on a diagonal: fold tip not at a dyadic t
     "cubic-closed": ("C", [P(1, 1), P(5, 9), P(-6, 4), P(1, 1)]),
     "cubic-pt": ("C", [P(1, 2), P(1, 2), P(1, 2), P(1, 2)]),
     "cubic-long": ("C", [P(0, 0), P(40, 1), P(-30, 2), P(10, 3)]),
@@ -347,6 +352,22 @@ def stale_check(svg, tier):
         "subpath.reverse": lambda o: o.subpath(0).reverse() if isinstance(o, svg.Path) else stale.c18._na(),
     }
 
+    # a pending map followed by the call that applies it: neither step alone changes what length() must say next (the
+    # map only becomes pending; a reify without a pending map does nothing), the two in a row do
+    def then_reify(first):
+        def f(o):
+            if not hasattr(o, "transform") or not hasattr(o, "reify"):
+                stale.c18._na()
+            first(o)
+            o.reify()
+        return f
+    extra["*=;reify"] = then_reify(lambda o: o.__imul__(svg.Matrix(2, 0, 0, 3, 1, -1)))
+    extra["*=uniform;reify"] = then_reify(lambda o: o.__imul__(svg.Matrix(3, 0, 0, 3, 0, 0)))
+    extra["transform=;reify"] = then_reify(lambda o: setattr(o, "transform", svg.Matrix(2, 1, 0, 3, 3, 4)))
+    extra["transform.post_scale;reify"] = then_reify(lambda o: o.transform.post_scale(2, 3))
+    extra["@="] = lambda o: o.__imatmul__(svg.Matrix(2, 0, 0, 3, 1, -1)) if hasattr(o, "__imatmul__") else stale.c18._na()
+    extra["*=;abs-discarded;reify"] = then_reify(lambda o: (o.__imul__(svg.Matrix(2, 0, 0, 3, 1, -1)), abs(o)))
+
     def iadd_measured(text):
         # the right operand of += has been measured itself (its own memo is filled) before it is appended; a move-less
         # or closing operand is re-linked to the left path on the way, so its measured lengths are not those it has there
@@ -482,7 +503,7 @@ def m_path_accuracy(d):
 
 def m_collinear_fold(d):
     """input class: a CubicBezier whose four control points are collinear and which reverses direction inside (0,1)
-    (a degenerate fold-back); pinned failure: the result is short of the true length by at most 1e-6 x the length,
+    (a degenerate fold-back); pinned failure: the result is short of the true length by at most 1e-3 x the length,
     independently of the requested error (a leaf whose three samples are collinear and ordered is accepted although
     the curve runs to the fold tip and back between them)"""
     t = d["tags"]
@@ -505,9 +526,12 @@ def m_collinear_fold(d):
     exp, obs = d["expected"], d["observed"]
     if exp is None or obs is None or exp <= 0:
         return False
+    # how short depends on where the fold tip falls between the samples of the accepted leaf: ~3e-7 x length for
+    # cubic-col-fold, 2.7e-4 x length for cubic-col-back3 (measured on 789e63c); a fold that is missed altogether
+    # (the chord instead of the curve) is short by tens of percent and is not matched
     if t["kind"] == "accuracy":
-        return obs <= exp * (1 + 1e-12) and exp - obs <= 1e-6 * exp
-    return abs(exp - obs) <= 1e-6 * exp
+        return obs <= exp * (1 + 1e-12) and exp - obs <= 1e-3 * exp
+    return abs(exp - obs) <= 1e-3 * exp
 
 
 from props.stale import m_length_memo_unseen_edit  # noqa: E402
